@@ -48,6 +48,7 @@ type scenario struct {
 	insts    []string
 	seenOps  []string // operation labels seen in messages
 	tokenSeq int
+	dups     int // duplicate Synchronize calls started so far
 	kinds    string
 	// size classes of the predeclared queue (flavour 1)
 	predeclared []uint32
@@ -280,6 +281,9 @@ func (sc *scenario) step(allowNew bool) bool {
 			if weight > 0 {
 				add(weight, func() { w.StartSynchronize(d, sc.syncArgs(d)) })
 			}
+		} else if allowNew && sc.dups < 3 {
+			// the same worker synchronizing twice at once (a retried RPC)
+			add(1, func() { sc.dups++; w.StartSynchronize(d, sc.syncArgs(d)) })
 		}
 	}
 	total := 0
